@@ -301,6 +301,9 @@ func gomaxprocs(ck *checks.Check, n int) string {
 	if ck.Serial {
 		return strconv.Itoa(runtime.NumCPU())
 	}
+	if ck.Engine == "S" {
+		return "1" // cooperative hand-offs are fastest on one P
+	}
 	return "2"
 }
 
